@@ -5,7 +5,7 @@ ID = 'C13'
 LEAN_MODULES = ['C13', 'C13b']
 RULE = ('one case = a real datacake_rpc::Server on loopback with three services (A and B share the message type M1, C handles M1 and M2) and a sequence of '
         'add_service / remove_service events (each add installs a new instance, so replacement is observable); after EVERY event all four (service, message) '
-        'pairs are sent over a real client channel and classified ok:<instance> / unavailable; quick: all sequences up to length 3 plus random ones up to 10; ' 'a second family has two service TYPES registered under ONE name, a four-message service and eight single-message bystanders (16 pairs called after every event); '
+        'pairs are sent over a fresh client channel AND over one long-lived connection per case and classified ok:<instance> / unavailable; quick: all sequences up to length 3 plus random ones up to 10; ' 'a second family has two service TYPES registered under ONE name, a four-message service and eight single-message bystanders (16 pairs called after every event); '
         'thorough: all sequences up to length 5; non-trivial = contains a remove of a registered service while another service is registered; distinct by hash')
 ASSUMPTIONS = ['SipHash of the handler URIs is injective on the URIs in play (handler keys of different services are disjoint)',
                'hyper/h2 deliver each request to the service function (transport is exercised, not modelled)']
@@ -18,8 +18,8 @@ PAIRS = [('A', 'M1'), ('B', 'M1'), ('C', 'M1'), ('C', 'M2')]
 EVENTS = ['add A', 'add B', 'add C', 'remove A', 'remove B', 'remove C']
 # second family: D and E are two service TYPES registered under ONE name ("shared"), S has four message types,
 # P0..P7 are single-message bystanders (their hashed keys fall all over the key space)
-TYPES2 = ['D', 'E', 'S'] + ['P%d' % i for i in range(8)]
-PAIRS2 = [('D', 'M1'), ('E', 'M2'), ('S', 'M1'), ('S', 'M2'), ('S', 'M3'), ('S', 'M4')] + [('P%d' % i, 'M1') for i in range(8)] + [('A', 'M1'), ('C', 'M2')]
+TYPES2 = ['D', 'E', 'S', 'G'] + ['P%d' % i for i in range(8)]      # G: a service whose name contains '<' and '>' (generic type)
+PAIRS2 = [('D', 'M1'), ('E', 'M2'), ('G', 'M1'), ('S', 'M1'), ('S', 'M2'), ('S', 'M3'), ('S', 'M4')] + [('P%d' % i, 'M1') for i in range(8)] + [('A', 'M1'), ('C', 'M2')]
 EVENTS2 = ['add %s' % t for t in TYPES2 + ['A', 'C']] + ['remove %s' % t for t in TYPES2 + ['A', 'C']]
 
 
@@ -39,6 +39,9 @@ def mk(idx, evs, pairs=None):
             lines.append(e)
         for (s, m) in pairs:
             lines.append('call %s %s' % (s, m))
+        # the same requests over the long-lived connection of the case (what it served before must not stick to it)
+        for (s, m) in pairs:
+            lines.append('callp %s %s' % (s, m))
     lines.append('end')
     return lines
 
@@ -57,7 +60,7 @@ def generate(rng, tier):
         evs = pre + [rng.choice(EVENTS2 + EVENTS2[len(EVENTS2) // 2:]) for _ in range(rng.range(1, 6))]
         cases.append(mk(idx, evs, PAIRS2)); idx += 1
     # the two shapes by themselves, exhaustively short
-    for evs in (['add D', 'add E', 'remove D'], ['add E', 'add D', 'remove E'], ['add D', 'add P0', 'add E', 'remove D', 'add D'],
+    for evs in (['add G', 'remove G', 'add G', 'add P1', 'remove G'], ['add D', 'add E', 'remove D'], ['add E', 'add D', 'remove E'], ['add D', 'add P0', 'add E', 'remove D', 'add D'],
                 ['add S'] + ['add P%d' % i for i in range(8)] + ['remove S'], ['add P%d' % i for i in range(8)] + ['add S', 'add D', 'add E', 'remove S', 'remove E']):
         cases.append(mk(idx, evs, PAIRS2)); idx += 1
     return cases
